@@ -1542,7 +1542,25 @@ func allUniques(n parse.Node) [][][]xml.Name {
 func (c *Compiler) BuildList(features inheritedFeatures, m parse.Node, n parse.Node) schema.Node {
 	c.CheckMinMax(n, n.Min(), n.Max())
 
-	children := c.buildListChildren(n.Keys(), features, m, n.ChildrenByType(parse.NodeDataDef))
+	// A key may be written with the prefix of the module the list is
+	// written in: it is the name after the prefix that the entries go by
+	keys := append([]string{}, n.Keys()...)
+	for i, k := range keys {
+		j := strings.Index(k, ":")
+		if j < 0 || strings.Contains(k, "/") {
+			continue
+		}
+		kmod, err := n.GetModuleByPrefix(k[:j], c.modules, c.skipUnknown)
+		if err != nil {
+			c.error(n, err)
+		}
+		if c.owningModule(kmod) != c.owningModule(n.Root()) {
+			c.error(n, fmt.Errorf("key %s is not a leaf of the list", k))
+		}
+		keys[i] = k[j+1:]
+	}
+
+	children := c.buildListChildren(keys, features, m, n.ChildrenByType(parse.NodeDataDef))
 
 	l, err := schema.NewList(
 		n.Name(),
@@ -1556,7 +1574,7 @@ func (c *Compiler) BuildList(features inheritedFeatures, m parse.Node, n parse.N
 		n.Max(),
 		features.config,
 		features.status,
-		n.Keys(),
+		keys,
 		allUniques(n),
 		c.BuildWhens(n),
 		c.BuildMusts(n),
